@@ -70,6 +70,9 @@ class Node:
     def __hash__(self) -> int:
         return self.id
 
+    def __repr__(self) -> str:
+        return f"<Node {self.id} {self.kind} L{self.line} {self.text(40)!r}>"
+
 
 class Graph:
     def __init__(self, entry_func: FunctionInfo) -> None:
